@@ -296,7 +296,7 @@ func genCase(r *lib.Rng, id int64, tier string) Case {
 	case x < 88:
 		kind := pickStr(r, []string{"tprep", "sprep", "eprep"})
 		o := Op{Op: kind, N: r.Range(1, 12)}
-		if r.Chance(1, 6) {
+		if kind != "eprep" && r.Chance(1, 6) { // Configure refuses these; an ErroringSource has no Configure (its nchan is fixed at 1 in dastard)
 			o.N = r.Range(-1, 0)
 		}
 		c.Ops = append(c.Ops, o)
